@@ -129,6 +129,12 @@ const genesisTime = 1700000000
 
 // NewWorld builds chain + genesis for a run. Everything is derived from seed.
 func NewWorld(seed uint64, cfg Cfg, tr *sim.Trace) *World {
+	return NewWorldWith(seed, cfg, tr, nil)
+}
+
+// NewWorldWith is NewWorld with a hook that runs after the H1 observer is
+// installed and before genesis (so oracles can see the genesis inserts).
+func NewWorldWith(seed uint64, cfg Cfg, tr *sim.Trace, early func(w *World)) *World {
 	Boot()
 	w := &World{Seed: seed, Cfg: cfg, Tr: tr, Reg: NewRegistry(), Ix: NewLeafIndex()}
 	w.Ctx, w.stop = context.WithCancel(context.Background())
@@ -155,6 +161,9 @@ func NewWorld(seed uint64, cfg Cfg, tr *sim.Trace) *World {
 	w.C = c
 	go c.StartLFMBWorker(w.Ctx)
 	w.installObserver()
+	if early != nil {
+		early(w)
+	}
 
 	w.OwnerID = config.SmartContractConfig.GetString("smart_contracts.storagesc.owner_id")
 	w.ChainOwn = c.OwnerID()
